@@ -408,7 +408,7 @@ func (r *runner) instantiate() error {
 			problems = append(problems, "listener has no Addr()")
 		} else {
 			for k := 0; k < 2; k++ {
-				c, err := net.DialTimeout("tcp", a.Addr().String(), 2*time.Second)
+				c, err := net.DialTimeout("tcp", a.Addr().String(), 30*time.Second)
 				if err != nil {
 					problems = append(problems, "dial: "+err.Error())
 					break
@@ -419,7 +419,7 @@ func (r *runner) instantiate() error {
 			must("fd_fdstat_set_flags", 4, 4)
 			if len(in.peers) > 0 {
 				ok := false
-				for try := 0; try < 200 && !ok; try++ {
+				for try := 0; try < 10000 && !ok; try++ {
 					if errno := in.wcall("sock_accept", 4, 4, aScratch); errno == 0 {
 						ok = true
 					} else if errno != 6 { // EAGAIN
@@ -529,6 +529,14 @@ func runtimeErrorCause(text string) (kind, frame string) {
 	kind = first
 	if m := reGoErr.FindStringSubmatch(first); m != nil {
 		kind = m[2]
+	}
+	switch {
+	case strings.Contains(kind, "nil pointer"):
+		kind = "nil-dereference"
+	case strings.Contains(kind, "slice bounds"):
+		kind = "slice-bounds-out-of-range"
+	case strings.Contains(kind, "makeslice"):
+		kind = "makeslice"
 	}
 	kind = strings.ReplaceAll(strings.TrimSpace(kind), " ", "-")
 	rest := text
